@@ -33,9 +33,9 @@ def dqnBalanced : Nat → List Call → Bool
   | d, .dqnEnd :: r => decide (0 < d) && dqnBalanced (d - 1) r
   | d, _ :: r => dqnBalanced d r
 
-/-- the hypotheses of the no-lost-wake-up theorem on a family of thread programs.  `processIf` calls
-    are allowed: since `processIf` notifies after putting declined events back (`procPbReadNc`,
-    `procPbNotify`) no restriction on it is needed (see `C07_processIf_repaired` in
+/-- the hypotheses of the no-lost-wake-up theorem on a family of thread programs.  `processIf` and
+    `processUntil` calls are allowed: since both notify after putting events back (`procPbReadNc`,
+    `procPbNotify`) no restriction on them is needed (see `C07_processIf_repaired` in
     `Properties/C07.lean` for the two schedules that lost a wake-up before that repair). -/
 def WF (progs : List (List Call)) : Prop :=
   ∀ p ∈ progs, waitsFollowed p = true ∧ dqnBalanced 0 p = true
@@ -65,7 +65,7 @@ def isWaitPc : PC → Bool
 /-- program counters at which a thread carries an *obligation*: it will, before it can finish or
     block, either make `queue ≠ [] ∧ nc = 0` false itself / see it false, or wake a parked waiter.
 
-    A `processIf` thread (modes 2/3) is an obligation holder exactly after its put-back: at
+    A `processIf` / `processUntil` thread (modes 2/3, 4/5) is an obligation holder exactly after its put-back: at
     `procPutBack` the declined events are not in the list yet (and the step needs the mutex, so no
     waiter is between its predicate evaluation and its parking); the put-back step makes the list
     non-empty and the thread a holder (`procPbReadNc`), like `enqSplice` does for `enqueue`.
